@@ -4,6 +4,7 @@
       low `size_of(type)` bytes;
     * `storeBytes_exact`, `a64_imm_stack_machine` (fix C06-21): an immediate stack argument is stored in exactly `size_of(type)`
       bytes: the immediate's low bytes inside the slot, nothing outside it;
+    * `a64_reg_reg_arg_machine` (fix C06-22, the former finding C06-K11): a narrower register is extended as the parameter type requires;
     * `store8_first_and_overflow`: what an 8-byte store does to a 1-byte slot (the former finding C06-K10: it also writes the byte 7
       places further – the next packed Apple arguments or the caller's locals).
   The real post-RA lists of every generated AArch64 call are judged by the byte machine (monitor); no list theorem for AArch64.
@@ -119,5 +120,20 @@ theorem a64_imm_stack_machine (s : LSt) (arg : FuncValue) (hdt : arg.typeId ∈ 
          by simp [stInst, tySize, hd], ?_, ?_, rfl, rfl, (hex _).1, (hex _).2⟩
        · simp [InvokeSpecA64.step, isGpRt]
        · simp [InvokeSpecA64.step, stInst, isGpRt, MA.getGp, MA.setGp, gpBytes, a64SpId, tySize, hd])
+
+/-- **AArch64, a narrower register for a wider integer parameter (fix C06-22; register and stack positions), every type pair the
+    lowering extends, every register content**: the extension instruction leaves, in the new register the invoke passes (or stores
+    by the argument's size), the value extended as the parameter type requires – sign extension when both types are signed, zero
+    extension otherwise.  This was the finding C06-K11. -/
+theorem a64_reg_reg_arg_machine (dt : Nat) (hdt : dt ∈ intTys8) (st : Nat) (hst : st ∈ intTys8) (hn : a64NeedsExt dt st = true)
+    (id vid : Nat) (m : MA) (x : BitVec 64) (hg : m.getGp vid = some x) :
+    ∃ m' v, InvokeSpecA64.step m (a64ExtInst dt st id vid).1 = some m' ∧ m'.getGp id = some v ∧
+      lowBytes (tySize dt) v = lowBytes (tySize dt) (widen dt st x) := by
+  simp only [intTys8, List.mem_cons, List.mem_nil_iff, or_false] at hdt hst
+  rcases hdt with rfl | rfl | rfl | rfl | rfl | rfl | rfl | rfl <;> rcases hst with rfl | rfl | rfl | rfl | rfl | rfl | rfl | rfl <;>
+    first
+    | (exact absurd hn (by decide))
+    | (refine ⟨_, _, by simp [a64ExtInst, InvokeSpecA64.step, isGp8, isGp16, tySize, isGpRt, hg]; rfl, by simp [MA.getGp, MA.setGp]; rfl, ?_⟩
+       simp [tySize, lowBytes, widen, isInt, isBetween, sext8, sext16, sext32, zext8, zext16, zext32] <;> bv_decide)
 
 end AsmjitVerif.C06InvokeA64
